@@ -63,11 +63,30 @@ def gen_ircqueue():
                 raise ExtractionError('Irc.takeMsg echo commands: %s' % e)
     if len(echo) != 1 or not all(isinstance(x, str) for x in echo[0]):
         raise ExtractionError('Irc.takeMsg: expected exactly one `msg.command.upper() in (...)` test, found %r' % (echo,))
+    # IrcMsgQueue.enqueue: is the `msg in self` test, and is every append, inside `with self.lock:`?
+    def under_lock(fn):
+        locked = set()
+        for n in ast.walk(fn):
+            if isinstance(n, ast.With) and any(isinstance(i.context_expr, ast.Attribute) and i.context_expr.attr == 'lock'
+                                               for i in n.items):
+                for c in ast.walk(n):
+                    locked.add(id(c))
+        tests = [n for n in ast.walk(fn) if isinstance(n, ast.Compare) and len(n.ops) == 1 and isinstance(n.ops[0], ast.In)
+                 and isinstance(n.comparators[0], ast.Name) and n.comparators[0].id == 'self']
+        appends = [n for n in ast.walk(fn) if isinstance(n, ast.Call) and isinstance(n.func, ast.Attribute)
+                   and n.func.attr == 'enqueue']
+        if len(tests) != 1 or len(appends) != 3:
+            raise ExtractionError('IrcMsgQueue.enqueue: expected one `msg in self` test and three appends, found %d, %d'
+                                  % (len(tests), len(appends)))
+        return all(id(n) in locked for n in tests + appends)
+    enq_locked = under_lock(enq)
     body = ('import LimnoriaModel.Py.Basic\nnamespace Gen\n\n'
             '/-- irclib._high (sorted) -/\ndef highPriority : List Py.Str :=\n  %s\n\n'
             '/-- irclib._low (sorted) -/\ndef lowPriority : List Py.Str :=\n  %s\n\n'
             '/-- the command `IrcMsgQueue.dequeue` rate-limits -/\ndef rateLimitedCommand : Py.Str := %s\n\n'
-            '/-- `Irc.takeMsg`: commands whose echo is emulated -/\ndef echoCommands : List Py.Str :=\n  %s\n\nend Gen\n'
+            '/-- `Irc.takeMsg`: commands whose echo is emulated -/\ndef echoCommands : List Py.Str :=\n  %s\n\n'
+            '/-- `IrcMsgQueue.enqueue`: the `msg in self` test and the appends are inside `with self.lock:` -/\n'
+            'def enqueueLocked : Bool := %s\n\nend Gen\n'
             % (llist(lstr(x) for x in high), llist(lstr(x) for x in low), lstr(lim[0]),
-               llist(lstr(x) for x in echo[0])))
+               llist(lstr(x) for x in echo[0]), 'true' if enq_locked else 'false'))
     write_if_changed('IrcQueue.lean', body, 'src/irclib.py')
